@@ -1,9 +1,322 @@
 /-
 C09 — unfolding repeats concatenates segments along a valid path and nothing else.
+
+Theorems over Model/Unfold.lean (`mkSegments` = add_segments, `getPaths`/`unfoldFrom` = get_paths /
+unfold_paths with the per-path copy of rewritten segments (fixes/C09-1), `variant` = create_variant_part,
+`suffixIds` = update_note_ids_after_unfolding).  Helper lemmas: Proofs/C09Walk, C09Variant, C09Shape.
 -/
-import PartituraModel.Model.Unfold
+import PartituraModel.Proofs.C09Walk
+import PartituraModel.Proofs.C09Variant
+import PartituraModel.Proofs.C09Shape
 
 namespace C09
 open Model.Unfold
+
+/-! ## Paths -/
+
+/-- Every enumerated path starts at the first segment, every step follows a destination the segment table
+allows (immediately, or released by a leap), and the last segment can reach END — for every segment table,
+every policy and every amount of fuel. -/
+theorem paths_are_walks (g : List Seg) (nr ar il : Bool) (fuel : Nat) (ps : List (List Nat))
+    (h : getPaths g nr ar il fuel = some ps) (p : List Nat) (hp : p ∈ ps) :
+    p.head? = some 0 ∧ Walk g p ∧ ∃ l, p.getLast? = some l ∧ Edge g l .fin :=
+  unfoldFrom_good g il fuel (initState g nr ar) ps (inv_init g nr ar) h p hp
+
+/-- A result of the enumeration does not depend on the fuel: once it succeeds, any larger fuel gives the
+same list of paths. -/
+theorem enumeration_fuel_monotone (g : List Seg) (nr ar il : Bool) (fuel k : Nat) (ps : List (List Nat))
+    (h : getPaths g nr ar il fuel = some ps) : getPaths g nr ar il (fuel + k) = some ps :=
+  unfoldFrom_mono_add il fuel k _ ps h
+
+-- non-vacuity: da capo al fine over two segments (A.to = [B], A.await = [END]; B.to = [A, END], leap)
+example : getPaths
+    [{ start := 0, stp := 8, to := [.seg 1], await := [.fin], ty := .leapEnd },
+     { start := 8, stp := 16, to := [.seg 0, .fin], await := [.fin], ty := .leapStart }]
+    false true true 10 = some [[0, 1, 0]] := by decide
+
+/-! ## The unfolded part -/
+
+/-- The offsets used for the visited segments are the running sums of the segment lengths, and the visits
+are the segments of the path in order. -/
+theorem offsets_are_prefix_sums (g : List Seg) (path : List Nat) (vs : List Visit)
+    (h : visitsOf g path = some vs) :
+    OffsetsOK 0 vs ∧ visitLens vs = path.map (segLen g) ∧
+    (∀ (k i : Nat), path[k]? = some i →
+        ∃ (s : Seg) (v : Visit), g[i]? = some s ∧ vs[k]? = some v ∧ v.s = s.start ∧ v.e = s.stp) :=
+  visitsFrom_ok g path 0 vs h
+
+/-- Length: the new part spans exactly the sum of the visited segments' lengths, provided the part is
+well formed for its segmentation: segment starts are time points, ends are not before starts, no copied
+object reaches beyond the end of its segment, and something that is copied ends at the end of the last
+visited segment (with measures at the boundaries all of this holds). -/
+theorem length_sum (p : APart) (vs : List Visit) (vl : Visit)
+    (hoff : OffsetsOK 0 vs) (hpos : ∀ v ∈ vs, v.s < v.e) (hlast : vs.getLast? = some vl)
+    (hstart : ∀ v, vs.head? = some v → v.s ∈ p.points)
+    (hwf : ∀ o ∈ p.objs, ∀ e, o.stp = some e → o.start ≤ e)
+    (hnocross : ∀ v ∈ vs, ∀ o ∈ p.objs, inWin v o = true → o.kind.dropped = false →
+      ∀ e, o.stp = some e → e ≤ v.e)
+    (hclose : ∃ o ∈ p.objs, inWin vl o = true ∧ o.kind.dropped = false ∧ o.kind.isSig = false ∧
+      o.stp = some vl.e) :
+    (variant p vs).duration = some (sumInt (visitLens vs)) := by
+  obtain ⟨b1, b2, b3, b4⟩ := offsets_bounds vs 0 hoff hpos
+  have hne : vs ≠ [] := by intro h; simp [h] at hlast
+  obtain ⟨v0, hv0⟩ : ∃ v0, vs.head? = some v0 := by
+    cases vs with
+    | nil => exact absurd rfl hne
+    | cons a _ => exact ⟨a, rfl⟩
+  have hv0mem : v0 ∈ vs := List.mem_of_head? hv0
+  have hvlmem : vl ∈ vs := List.mem_of_getLast? hlast
+  -- bounds on every point
+  have hb : ∀ t ∈ variantPoints p.points vs (variantObjs p.objs 0 vs []),
+      0 ≤ t ∧ t ≤ sumInt (visitLens vs) := by
+    intro t ht
+    rw [variantPoints_mem] at ht
+    rcases ht with ⟨v, hv, q, _, h1, h2, rfl⟩ | ⟨c, hc, hcase⟩
+    · have := b1 v hv; have := hpos v hv; omega
+    · rcases variantObjs_mem p.objs vs 0 [] c hc with h | ⟨n, v, out', hv, hcv⟩
+      · simp at h
+      · have hvm : v ∈ vs := List.mem_of_getElem? hv
+        have hbv := b1 v hvm
+        have hpv := hpos v hvm
+        obtain ⟨_, hkind⟩ := visitCopies_mem p.objs v (0 + n) out' c hcv
+        rcases hkind with ⟨hx, _, _, hs⟩ | ⟨hx, i, o, hio, hw, hd, hcore, _⟩
+        · rcases hcase with ⟨_, rfl⟩ | ⟨hx', _⟩
+          · rw [hs]; omega
+          · rw [hx] at hx'; simp at hx'
+        · rcases hcase with ⟨hx', _⟩ | ⟨_, hst⟩
+          · rw [hx] at hx'; simp at hx'
+          · have hom : o ∈ p.objs := List.mem_of_getElem? hio
+            simp only [core, mkCopy, Prod.mk.injEq] at hcore
+            have hstp := hcore.2.2.2.2.1
+            rw [hst] at hstp
+            cases hos : o.stp with
+            | none => simp [hos] at hstp
+            | some e0 =>
+              simp only [hos, Option.map_some, Option.some.injEq] at hstp
+              have h1 := hwf o hom e0 hos
+              have h2 := hnocross v hvm o hom hw hd e0 hos
+              simp only [inWin, Bool.and_eq_true, decide_eq_true_eq] at hw
+              omega
+  -- 0 is a point
+  have h0 : (0 : Int) ∈ variantPoints p.points vs (variantObjs p.objs 0 vs []) := by
+    rw [variantPoints_mem]
+    refine Or.inl ⟨v0, hv0mem, v0.s, hstart v0 hv0, Int.le_refl _, hpos v0 hv0mem, ?_⟩
+    have := b3 v0 hv0; omega
+  -- the total is a point
+  have hT : sumInt (visitLens vs) ∈ variantPoints p.points vs (variantObjs p.objs 0 vs []) := by
+    rw [variantPoints_mem]
+    obtain ⟨o, hom, hw, hd, hs, hst⟩ := hclose
+    obtain ⟨i, hio⟩ := List.getElem?_of_mem hom
+    obtain ⟨n, hn⟩ : ∃ n, vs[n]? = some vl := List.getElem?_of_mem hvlmem
+    obtain ⟨out', hsub⟩ := variantObjs_block p.objs vs 0 [] n vl hn
+    have hq : (i, o) ∈ (enum 0 p.objs).filter (copyable vl) := by
+      rw [List.mem_filter]
+      refine ⟨(enum_mem p.objs 0 i o).mpr ⟨Nat.zero_le _, by simpa using hio⟩, ?_⟩
+      simp [copyable, hw, hd, hs]
+    have hk := visitCopies_keep p.objs vl (0 + n) out'
+    have hmem : core (mkCopy i (0 + n) o (vl.off - vl.s)) ∈
+        ((visitCopies p.objs vl (0 + n) out').filter keepP).map core := by
+      rw [hk]
+      exact List.mem_map.mpr ⟨(i, o), hq, rfl⟩
+    obtain ⟨c, hc, hcore⟩ := List.mem_map.mp hmem
+    rw [List.mem_filter] at hc
+    refine Or.inr ⟨c, hsub c hc.1, Or.inr ?_⟩
+    simp only [core, mkCopy, Prod.mk.injEq] at hcore
+    refine ⟨hcore.2.2.2.2.2.2.2, ?_⟩
+    rw [hcore.2.2.2.2.1, hst]
+    have := b2 vl hlast
+    simp only [Option.map_some, Option.some.injEq]
+    omega
+  unfold Variant.duration variant
+  simp only
+  rw [listMin_eq _ 0 h0 (fun x hx => (hb x hx).1), listMax_eq _ _ hT (fun x hx => (hb x hx).2)]
+  simp
+
+/-- Copies per visit: leaving aside signatures and clefs (which the code copies only when they change), the
+unfolded part consists, visit after visit, of one copy of every object that starts in the visited segment
+and is not a repeat / ending / jump / segment / page / system object: at `start − s + offset(visit)`, with the
+same end distance, kind, payload (pitch, voice, staff) and id.  In particular every note of a visited
+segment occurs once per visit at the shifted position with unchanged pitch, duration, voice and staff. -/
+theorem copies_per_visit (p : APart) (vs : List Visit) :
+    (((variant p vs).objs.filter keepP).map core) =
+      (enum 0 vs).flatMap fun nv =>
+        ((enum 0 p.objs).filter (copyable nv.2)).map fun q => core (mkCopy q.1 nv.1 q.2 (nv.2.off - nv.2.s)) := by
+  have := variantObjs_keep p.objs vs 0 []
+  simpa [variant] using this
+
+/-- what `mkCopy` preserves: position shifted by the offset, same length, kind, payload and id -/
+theorem copy_fields (i k : Nat) (o : Obj) (d : Int) :
+    (mkCopy i k o d).start = o.start + d ∧ (mkCopy i k o d).stp = o.stp.map (· + d) ∧
+    (mkCopy i k o d).kind = o.kind ∧ (mkCopy i k o d).payload = o.payload ∧ (mkCopy i k o d).nid = o.nid ∧
+    (mkCopy i k o d).orig = i ∧ (mkCopy i k o d).visit = k :=
+  ⟨rfl, rfl, rfl, rfl, rfl, rfl, rfl⟩
+
+/-- the number of copies of one object is the number of times its segment occurs in the path
+(segments pairwise disjoint, as `mkSegments` builds them: see `segments_disjoint`) -/
+theorem copies_count (g : List Seg) (path : List Nat) (vs : List Visit) (hvs : visitsOf g path = some vs)
+    (hdis : DisjointSegs g) (p : APart) (i : Nat) (o : Obj) (hi : p.objs[i]? = some o)
+    (hd : o.kind.dropped = false) (hs : o.kind.isSig = false)
+    (j : Nat) (s : Seg) (hj : g[j]? = some s) (hin : s.start ≤ o.start ∧ o.start < s.stp) :
+    (((variant p vs).objs.filter keepP).filter fun c => decide (c.orig = i)).length = path.count j :=
+  copies_count_aux g path vs hvs hdis p i o hi hd hs j s hj hin
+
+/-- the segments `add_segments` builds are the intervals between consecutive boundary times -/
+theorem segments_disjoint (L : Layout) (g : List Seg) (h : mkSegments L = some g) : DisjointSegs g :=
+  mkSegments_disjoint L g h
+
+/-- Nothing of the repeat structure remains: no Repeat, Ending, DaCapo, DalSegno, ToCoda, Segment (nor
+Page / System) object is part of any unfolded part. -/
+theorem no_structure_left (p : APart) (vs : List Visit) (c : OObj) (hc : c ∈ (variant p vs).objs) :
+    c.kind.dropped = false ∧ c.kind ≠ .repeat_ ∧ c.kind ≠ .ending ∧ c.kind ≠ .daCapo ∧ c.kind ≠ .dalSegno ∧
+    c.kind ≠ .toCoda ∧ c.kind ≠ .segment := by
+  have hdrop : c.kind.dropped = false := by
+    rcases variantObjs_mem p.objs vs 0 [] c hc with h | ⟨n, v, out', _, hcv⟩
+    · simp at h
+    · obtain ⟨_, hkind⟩ := visitCopies_mem p.objs v (0 + n) out' c hcv
+      rcases hkind with ⟨_, hk, _, _⟩ | ⟨_, i, o, _, _, hd, hcore, _⟩
+      · rw [hk]; rfl
+      · simp only [core, mkCopy, Prod.mk.injEq] at hcore
+        rw [hcore.2.2.1]; exact hd
+  refine ⟨hdrop, ?_, ?_, ?_, ?_, ?_, ?_⟩ <;> (intro hk; rw [hk] at hdrop; simp [Kind.dropped] at hdrop)
+
+/-- References stay inside the copy: every reference of a copied object is either None or points to an
+object that was copied in the same visit (and is part of the unfolded part); the reference lists keep
+their shape, and a reference whose target is copied in the same visit is kept. -/
+theorem refs_closed (p : APart) (vs : List Visit) (c : OObj) (hc : c ∈ (variant p vs).objs)
+    (rl : List (Option Nat)) (hrl : rl ∈ c.refs) (j : Nat) (hj : some j ∈ rl) :
+    ∃ c' ∈ (variant p vs).objs, c'.visit = c.visit ∧ c'.orig = j ∧ c'.extra = false := by
+  rcases variantObjs_mem' p.objs vs 0 [] c hc with h | ⟨n, v, out', _, hcv, hsub⟩
+  · simp at h
+  · obtain ⟨hvis, hkind⟩ := visitCopies_mem p.objs v (0 + n) out' c hcv
+    rcases hkind with ⟨_, _, hr, _⟩ | ⟨_, i, o, _, _, _, _, hrefs⟩
+    · rw [hr] at hrl; simp at hrl
+    · rw [hrefs, List.mem_map] at hrl
+      obtain ⟨l0, _, rfl⟩ := hrl
+      rw [List.mem_map] at hj
+      obtain ⟨j0, _, hj0⟩ := hj
+      split at hj0
+      · rename_i hdom
+        simp only [Option.some.injEq] at hj0
+        subst hj0
+        simp only [List.contains_eq_mem, List.mem_map, decide_eq_true_eq] at hdom
+        obtain ⟨c0, hc0, hor⟩ := hdom
+        -- the resolved image of c0 is in the block
+        have hc0' : ({ c0 with refs := c0.refs.map (·.map (resolveRef ((copyPass v (0 + n) (enum 0 p.objs) out').map (·.orig)))) } : OObj)
+            ∈ visitCopies p.objs v (0 + n) out' := by
+          unfold visitCopies resolve
+          exact List.mem_append_left _ (List.mem_map.mpr ⟨c0, hc0, rfl⟩)
+        obtain ⟨hx, hv0⟩ := copyPass_notExtra v (0 + n) _ _ c0 hc0
+        exact ⟨_, hsub _ hc0', by simp [hv0, hvis], hor, hx⟩
+      · simp at hj0
+
+/-- shape of the reference lists of a copy: those of the original, each target kept when it is copied in
+the same visit, None otherwise -/
+theorem refs_exact (p : APart) (vs : List Visit) (c : OObj) (hc : c ∈ (variant p vs).objs)
+    (hx : c.extra = false) :
+    ∃ (o : Obj) (dom : List Nat), p.objs[c.orig]? = some o ∧
+      c.refs = o.refs.map (·.map fun j => if dom.contains j then some j else none) ∧
+      ∀ j ∈ dom, ∃ c' ∈ (variant p vs).objs, c'.visit = c.visit ∧ c'.orig = j ∧ c'.extra = false := by
+  rcases variantObjs_mem' p.objs vs 0 [] c hc with h | ⟨n, v, out', _, hcv, hsub⟩
+  · simp at h
+  · obtain ⟨hvis, hkind⟩ := visitCopies_mem p.objs v (0 + n) out' c hcv
+    rcases hkind with ⟨hx', _⟩ | ⟨_, i, o, hio, _, _, hcore, hrefs⟩
+    · rw [hx] at hx'; simp at hx'
+    · simp only [core, mkCopy, Prod.mk.injEq] at hcore
+      refine ⟨o, (copyPass v (0 + n) (enum 0 p.objs) out').map (·.orig), by rw [hcore.1]; exact hio, hrefs, ?_⟩
+      intro j hj
+      simp only [List.mem_map] at hj
+      obtain ⟨c0, hc0, hor⟩ := hj
+      have hc0' : ({ c0 with refs := c0.refs.map (·.map (resolveRef ((copyPass v (0 + n) (enum 0 p.objs) out').map (·.orig)))) } : OObj)
+          ∈ visitCopies p.objs v (0 + n) out' := by
+        unfold visitCopies resolve
+        exact List.mem_append_left _ (List.mem_map.mpr ⟨c0, hc0, rfl⟩)
+      obtain ⟨hx0, hv0⟩ := copyPass_notExtra v (0 + n) _ _ c0 hc0
+      exact ⟨_, hsub _ hc0', by simp [hv0, hvis], hor, hx0⟩
+
+-- non-vacuity of the part theorems: a tie from a note in segment [0,4) to a note in [4,8), path A-B-B
+example :
+    let p : APart := { points := [0, 2, 4, 8], qd := [(0, 1)], objs :=
+      [{ kind := .note, start := 2, stp := some 4, payload := [60, 1, 1], nid := some "a", refs := [[1]] },
+       { kind := .note, start := 4, stp := some 8, payload := [62, 1, 1], nid := some "b", refs := [[0]] },
+       { kind := .repeat_, start := 4, stp := some 8, payload := [], nid := none, refs := [] }] }
+    let vs : List Visit := [⟨0, 4, 0⟩, ⟨4, 8, 4⟩, ⟨4, 8, 8⟩]
+    (variant p vs).duration = some 12 ∧ ((variant p vs).objs.map fun c => (c.orig, c.start, c.refs)) =
+      [(0, 2, [[none]]), (1, 4, [[none]]), (1, 8, [[none]])] := by decide
+
+/-- Ids on request (`update_ids`): a note with an id gets the suffix `-k` where `k` is its rank (from 1) among
+the notes with the same id ordered by onset; nothing else changes.
+PARTIAL: that this rank is the number of the visit of the note's segment (for parts with unique ids) is not
+proved here; it is compared with the implementation on every case and checked by the oracle. -/
+theorem ids_suffixed_partial (out : List OObj) (pos : Nat) (c : OObj) (h : (enum 0 out)[pos]? = some (pos, c)) :
+    ∃ c', (suffixIds out)[pos]? = some c' ∧
+      c'.orig = c.orig ∧ c'.visit = c.visit ∧ c'.kind = c.kind ∧ c'.start = c.start ∧ c'.stp = c.stp ∧
+      c'.payload = c.payload ∧ c'.refs = c.refs ∧
+      c'.nid = (match c.kind, c.nid with
+        | .note, some s => some (s ++ "-" ++ toString (idRank out pos c))
+        | _, n => n) := by
+  unfold suffixIds
+  rw [List.getElem?_map, h]
+  simp only [Option.map_some]
+  refine ⟨_, rfl, ?_⟩
+  cases hk : c.kind <;> cases hn : c.nid <;> simp_all
+
+example : (suffixIds
+    [{ orig := 0, visit := 0, kind := .note, start := 0, stp := some 1, payload := [], nid := some "n1", refs := [] },
+     { orig := 0, visit := 1, kind := .note, start := 4, stp := some 5, payload := [], nid := some "n1", refs := [] }]).map (·.nid)
+    = [some "n1-1", some "n1-2"] := by decide
+
+/-! ## Shapes -/
+
+/-- r pairwise disjoint simple repeats (no endings, no marks): the segment table is a chain in which the r
+repeated sections offer `[themselves, next]`.  Then there are exactly 2^r paths (any fuel ≥ 2n+1 is enough,
+so the enumeration terminates), the maximal unfolding plays every repeated section exactly twice, the minimal
+one plays every section once. -/
+theorem simple_repeats (flags : List Bool) (tys : List SegType) (times : List (Int × Int))
+    (hty : ∀ t ∈ tys, t ≠ SegType.leapStart) (il : Bool) (fuel : Nat) (hf : 2 * flags.length + 1 ≤ fuel)
+    (hne : flags ≠ []) :
+    (∃ ps, getPaths (chainGraph flags tys times) false false il fuel = some ps ∧
+        ps.length = 2 ^ (flags.count true) ∧ ps = allPaths 0 flags) ∧
+    getPaths (chainGraph flags tys times) false true il fuel = some [maxPath 0 flags] ∧
+    getPaths (chainGraph flags tys times) true false il fuel = some [minPath 0 flags] :=
+  simple_repeats_aux flags tys times hty il fuel hf hne
+
+/-- each repeated section occurs exactly twice in the maximal path and once in the minimal one; the other
+sections once -/
+theorem max_min_counts (flags : List Bool) (i : Nat) (b : Bool) (h : flags[i]? = some b) :
+    (maxPath 0 flags).count i = (if b then 2 else 1) ∧ (minPath 0 flags).count i = 1 :=
+  max_min_counts_aux flags 0 i b (by simpa using h) (Nat.zero_le _)
+
+/-- PARTIAL (finite table): that `add_segments` produces exactly these chain graphs is established by
+evaluation for every layout of up to 4 sections on a grid (every subset of sections repeated, no two
+unrepeated sections adjacent since such sections form one segment), not for symbolic boundary times;
+the correspondence compares the segment table on every generated layout. -/
+theorem simple_repeats_layout_partial :
+    ∀ flags ∈ flagTable, mkSegments (gridLayout flags) = some (chainGraph flags (gridTys flags) (gridTimes flags)) := by
+  decide +kernel
+
+/-- One repeat with endings 1..k (k ≤ 3, brackets carrying one or two numbers, with or without music before
+the repeat and after the last ending): the maximal unfolding plays the section once per ending number, taking
+on pass i the bracket that carries number i, the minimal one plays it once with the last bracket.
+PARTIAL (finite table): proved by evaluating `mkSegments` and `getPaths` on every such layout on a grid, not
+for symbolic times or k > 3. -/
+theorem voltas_upto3_partial :
+    ∀ c ∈ voltaTable,
+      (mkSegments (voltaLayout c)).bind (fun g => getPaths g false true true 200) = some [voltaMax c] ∧
+      (mkSegments (voltaLayout c)).bind (fun g => getPaths g true false true 200) = some [voltaMin c] := by
+  decide +kernel
+
+/-- No repeat structure: one segment, the single path `[A]`. -/
+theorem no_repeats_single_path (first last : Int) (h : first < last) (nr ar il : Bool) (fuel : Nat) :
+    (mkSegments { first := first, last := last }).bind (fun g => getPaths g nr ar il (fuel + 1)) = some [[0]] :=
+  no_repeats_aux first last h nr ar il fuel
+
+/-- … and the unfolded part is the original: every object that is not a signature/clef, page or system and
+starts before the last time point appears exactly once, moved by `−first`, with kind, length, payload, id
+unchanged (signatures and clefs: see `copies_per_visit`; only those that repeat the previous one are left out). -/
+theorem no_repeats_id (p : APart) (first last : Int) :
+    (((variant p [⟨first, last, 0⟩]).objs.filter keepP).map core) =
+      ((enum 0 p.objs).filter (copyable ⟨first, last, 0⟩)).map fun q => core (mkCopy q.1 0 q.2 (0 - first)) := by
+  have := copies_per_visit p [⟨first, last, 0⟩]
+  simpa [enum] using this
 
 end C09
